@@ -348,7 +348,11 @@ func (e *Engine) isMatchReverseAnchored(haystack []byte) bool {
 	}
 
 	atomic.AddUint64(&e.stats.DFASearches, 1)
-	return e.reverseSearcher.IsMatch(haystack)
+	// The reverse DFA cache comes from the pooled SearchState (zero alloc).
+	state := e.getSearchState()
+	matched := e.reverseSearcher.IsMatchWithCache(haystack, state.stratRevCache)
+	e.putSearchState(state)
+	return matched
 }
 
 // isMatchReverseSuffix checks for match using suffix prefilter + reverse DFA.
@@ -358,7 +362,11 @@ func (e *Engine) isMatchReverseSuffix(haystack []byte) bool {
 	}
 
 	atomic.AddUint64(&e.stats.DFASearches, 1)
-	return e.reverseSuffixSearcher.IsMatch(haystack)
+	// The reverse DFA cache comes from the pooled SearchState (zero alloc).
+	state := e.getSearchState()
+	matched := e.reverseSuffixSearcher.IsMatchWithCache(haystack, state.stratRevCache)
+	e.putSearchState(state)
+	return matched
 }
 
 // isMatchReverseSuffixSet checks for match using Teddy multi-suffix prefilter.
@@ -368,7 +376,11 @@ func (e *Engine) isMatchReverseSuffixSet(haystack []byte) bool {
 	}
 
 	atomic.AddUint64(&e.stats.DFASearches, 1)
-	return e.reverseSuffixSetSearcher.IsMatch(haystack)
+	// The reverse DFA cache comes from the pooled SearchState (zero alloc).
+	state := e.getSearchState()
+	matched := e.reverseSuffixSetSearcher.IsMatchWithCache(haystack, state.stratRevCache)
+	e.putSearchState(state)
+	return matched
 }
 
 // isMatchReverseInner checks for match using inner prefilter + bidirectional DFA.
@@ -378,7 +390,11 @@ func (e *Engine) isMatchReverseInner(haystack []byte) bool {
 	}
 
 	atomic.AddUint64(&e.stats.DFASearches, 1)
-	return e.reverseInnerSearcher.IsMatch(haystack)
+	// The DFA caches come from the pooled SearchState (zero alloc).
+	state := e.getSearchState()
+	matched := e.reverseInnerSearcher.IsMatchWithCaches(haystack, state.stratFwdCache, state.stratRevCache)
+	e.putSearchState(state)
+	return matched
 }
 
 // isMatchMultilineReverseSuffix checks for match using line-aware suffix prefilter.
@@ -389,5 +405,9 @@ func (e *Engine) isMatchMultilineReverseSuffix(haystack []byte) bool {
 	}
 
 	atomic.AddUint64(&e.stats.DFASearches, 1)
-	return e.multilineReverseSuffixSearcher.IsMatch(haystack)
+	// The forward DFA cache comes from the pooled SearchState (zero alloc).
+	state := e.getSearchState()
+	matched := e.multilineReverseSuffixSearcher.IsMatchWithCache(haystack, state.stratFwdCache)
+	e.putSearchState(state)
+	return matched
 }
